@@ -58,6 +58,7 @@ type regScenario struct {
 	parked   bool   // reader holds a frame after lookup
 	parkedOp uint64 // op id the reader is parked for
 	blocked  bool
+	panicked string
 	capacity int
 }
 
@@ -167,7 +168,15 @@ func (s *regScenario) act(a string, opidOf func(int) uint64) bool {
 		parks[opid] = p
 		parkMu.Unlock()
 		done := make(chan error, 1)
-		go func() { done <- s.reg.Execute(exact(respFrame(opid, tag))) }()
+		go func() {
+			defer func() {
+				if r := recover(); r != nil { // a panic in the reader kills the process in production
+					s.panicked = "panic:" + panicClass(r)
+					done <- fmt.Errorf("%s", s.panicked)
+				}
+			}()
+			done <- s.reg.Execute(exact(respFrame(opid, tag)))
+		}()
 		select {
 		case <-p.arrived:
 			s.parked, s.park, s.execDone, s.parkedOp = true, p, done, opid
@@ -240,6 +249,9 @@ func (s *regScenario) observe() string {
 	if s.blocked {
 		rd = "blocked"
 	}
+	if s.panicked != "" {
+		rd = s.panicked
+	}
 	return fmt.Sprintf("%s reg=%d reader=%s", strings.Join(parts, ","), frugal.VerifRegistrySize(s.reg), rd)
 }
 
@@ -304,6 +316,9 @@ func runRegLine(n, capacity int, actions []string) (string, bool, string) {
 	obs := fmt.Sprintf("flags=%s %s", flags, s.observe())
 	// the property itself, on the real observation
 	why := ""
+	if s.panicked != "" {
+		why = "the reader goroutine panicked in dispatch (" + s.panicked + "): the process would die"
+	}
 	if s.blocked {
 		why = "the reader blocked forever in dispatch (head-of-line blocking: later responses on this transport are lost)"
 	}
